@@ -2281,3 +2281,367 @@ Proof.
   - intros a b Ha Hb. split; [|apply ell_hessian; assumption].
     unfold hess. rewrite !nth_flat_grid by assumption. rewrite Nat.min_comm, Nat.max_comm. reflexivity.
 Qed.
+
+(* ------------------------------------------------------------------ convexity *)
+(* the elliptic cost in the plane (N, T), T >= 0, up to the factor D0/(2 mu^2): squared distance to the cone *)
+Definition G2 (mu N T : R) : R := Zsel mu N T 0 (N * N + T * T) ((N - mu * T) * (N - mu * T) / (1 + mu * mu)).
+Definition G2N (mu N T : R) : R := Zsel mu N T 0 (2 * N) (2 * (N - mu * T) / (1 + mu * mu)).
+Definition G2T (mu N T : R) : R := Zsel mu N T 0 (2 * T) (- 2 * mu * (N - mu * T) / (1 + mu * mu)).
+
+Lemma G2T_nonneg mu N T : 0 < mu -> 0 <= T -> 0 <= G2T mu N T.
+Proof.
+  intros Hmu HT. unfold G2T, Zsel.
+  destruct (Rle_dec (mu * T) N); [lra|]. destruct (Rle_dec (mu * N + T) 0); [lra|].
+  assert (0 < 1 + mu * mu) by nra.
+  unfold Rdiv. apply Rmult_le_pos; [nra | left; apply Rinv_0_lt_compat; assumption].
+Qed.
+
+Lemma G2_tangent mu N T N' T' : 0 < mu -> 0 <= T -> 0 <= T' ->
+  G2 mu N T + G2N mu N T * (N' - N) + G2T mu N T * (T' - T) <= G2 mu N' T'.
+Proof.
+  intros Hmu HT HT'. unfold G2, G2N, G2T, Zsel.
+  assert (Hq : 0 < 1 + mu * mu) by nra.
+  assert (Hi : 0 < / (1 + mu * mu)) by (apply Rinv_0_lt_compat; assumption).
+  set (k := / (1 + mu * mu)) in *.
+  assert (Hk : k * (1 + mu * mu) = 1) by (unfold k; field; lra).
+  set (a := N - mu * T). set (a' := N' - mu * T').
+  assert (Id : (1 + mu * mu) * (N' * N' + T' * T') = a' * a' + (mu * N' + T') * (mu * N' + T')) by (unfold a'; ring).
+  assert (Id0 : (1 + mu * mu) * (N * N + T * T) = a * a + (mu * N + T) * (mu * N + T)) by (unfold a; ring).
+  unfold Rdiv. fold k.
+  destruct (Rle_dec (mu * T) N) as [P1|P1]; [|destruct (Rle_dec (mu * N + T) 0) as [P2|P2]];
+    (destruct (Rle_dec (mu * T') N') as [Q1|Q1]; [|destruct (Rle_dec (mu * N' + T') 0) as [Q2|Q2]]).
+  - lra.
+  - nra.
+  - assert (0 <= a' * a' * k) by (apply Rmult_le_pos; [apply Rle_0_sqr | lra]). fold a'. lra.
+  - (* bottom, top *) assert (N * N' + T * T' <= 0).
+    { assert (N <= 0) by nra. assert (N * N' <= N * (mu * T')) by (apply Rmult_le_compat_neg_l; lra).
+      assert (N * mu * T' <= - T * T') by (apply Rmult_le_compat_r; lra). nra. }
+    nra.
+  - (* bottom, bottom *) pose proof (Rle_0_sqr (N' - N)) as S1. pose proof (Rle_0_sqr (T' - T)) as S2. unfold Rsqr in *. lra.
+  - (* bottom, middle *)
+    fold a'.
+    (* (1+mu^2) * rhs = a'^2 ; lhs*(1+mu^2) = (1+mu^2)(2NN'+2TT'-N^2-T^2) *)
+    assert (H : (2 * N * N' + 2 * T * T' - N * N - T * T) * (1 + mu * mu) <= a' * a').
+    { (* with b = mu N + T <= 0, b' = mu N' + T' > 0, a <= 0?, use decomposition along the two orthogonal directions *)
+      set (b := mu * N + T) in *. set (b' := mu * N' + T') in *.
+      assert (E1 : (1 + mu * mu) * (N * N' + T * T') = a * a' + b * b') by (unfold a, a', b, b'; ring).
+      assert (Hbb : b * b' <= 0) by nra.
+      assert (Sq : 0 <= (a - a') * (a - a')) by apply Rle_0_sqr.
+      assert (Sb : 0 <= b * b) by apply Rle_0_sqr.
+      nra. }
+    assert (H2 : (2 * N * N' + 2 * T * T' - N * N - T * T) * (1 + mu * mu) * k <= a' * a' * k) by (apply Rmult_le_compat_r; lra).
+    rewrite Rmult_assoc in H2. rewrite (Rmult_comm (1 + mu * mu) k) in H2. rewrite Hk in H2. lra.
+  - (* middle, top *) fold a. assert (a < 0) by (unfold a; lra). assert (0 <= a') by (unfold a'; lra).
+    assert (E : a * a * k + 2 * a * k * (N' - N) + - 2 * mu * a * k * (T' - T) = k * (2 * a * a' - a * a)) by (unfold a, a'; ring).
+    rewrite E. assert (2 * a * a' - a * a <= 0) by nra. nra.
+  - (* middle, bottom *) fold a.
+    assert (E : a * a * k + 2 * a * k * (N' - N) + - 2 * mu * a * k * (T' - T) = k * (2 * a * a' - a * a)) by (unfold a, a'; ring).
+    rewrite E.
+    assert (H : 2 * a * a' - a * a <= (1 + mu * mu) * (N' * N' + T' * T')).
+    { rewrite Id. assert (0 <= (a - a') * (a - a')) by apply Rle_0_sqr.
+      assert (0 <= (mu * N' + T') * (mu * N' + T')) by apply Rle_0_sqr. nra. }
+    assert (H2 : k * (2 * a * a' - a * a) <= k * ((1 + mu * mu) * (N' * N' + T' * T'))) by (apply Rmult_le_compat_l; lra).
+    rewrite <- Rmult_assoc, Hk in H2. lra.
+  - (* middle, middle *) fold a a'.
+    assert (E : a * a * k + 2 * a * k * (N' - N) + - 2 * mu * a * k * (T' - T) = k * (2 * a * a' - a * a)) by (unfold a, a'; ring).
+    rewrite E. assert (0 <= (a - a') * (a - a')) by apply Rle_0_sqr.
+    assert (k * (2 * a * a' - a * a) <= k * (a' * a')) by (apply Rmult_le_compat_l; nra). lra.
+Qed.
+
+Lemma sq_le_le (x y : R) : 0 <= y -> x * x <= y * y -> x <= y.
+Proof. intros Hy H. destruct (Rle_lt_dec x y); [assumption | exfalso; nra]. Qed.
+
+(* Cauchy-Schwarz for list vectors *)
+Lemma dotl_CS : forall U V : list R, dotl U V * dotl U V <= ssq U * ssq V.
+Proof.
+  induction U as [|a U IH]; intros V; [simpl; lra|].
+  destruct V as [|b V]; [simpl; pose proof (ssq_nonneg (a :: U)); simpl in *; nra|].
+  cbn [dotl ssq]. specialize (IH V).
+  set (s := dotl U V) in *. set (A := ssq U) in *. set (B := ssq V) in *.
+  assert (HA : 0 <= A) by apply ssq_nonneg. assert (HB : 0 <= B) by apply ssq_nonneg.
+  assert (HY : 0 <= a * a * B + b * b * A).
+  { assert (0 <= a * a * B) by (apply Rmult_le_pos; [apply Rle_0_sqr | exact HB]).
+    assert (0 <= b * b * A) by (apply Rmult_le_pos; [apply Rle_0_sqr | exact HA]). lra. }
+  assert (HX : 2 * a * b * s <= a * a * B + b * b * A).
+  { apply sq_le_le; [exact HY|].
+    assert (H1 : 4 * (a * a) * (b * b) * (s * s) <= 4 * (a * a) * (b * b) * (A * B)).
+    { apply Rmult_le_compat_l; [|exact IH].
+      assert (0 <= a * a) by apply Rle_0_sqr. assert (0 <= b * b) by apply Rle_0_sqr. nra. }
+    pose proof (Rle_0_sqr (a * a * B - b * b * A)) as H2. unfold Rsqr in H2. nra. }
+  nra.
+Qed.
+
+Lemma dotl_le_norms (U V : list R) : dotl U V <= sqrt (ssq U) * sqrt (ssq V).
+Proof.
+  apply sq_le_le.
+  - apply Rmult_le_pos; apply sqrt_pos.
+  - replace (sqrt (ssq U) * sqrt (ssq V) * (sqrt (ssq U) * sqrt (ssq V)))
+      with ((sqrt (ssq U) * sqrt (ssq U)) * (sqrt (ssq V) * sqrt (ssq V))) by ring.
+    rewrite !sqrt_sqrt by apply ssq_nonneg. apply dotl_CS.
+Qed.
+
+(* dot products of the tangential forces with a displacement *)
+Lemma dot_middle (a : R) : forall xt yt fr : list R, length yt = length xt ->
+  dotl (map2 (fun u f => a * u * f) (map2 Rmult xt fr) fr) (vsub yt xt) =
+  a * (dotl (map2 Rmult xt fr) (map2 Rmult yt fr) - ssq (map2 Rmult xt fr)).
+Proof.
+  induction xt as [|x xt IH]; intros yt fr Hl.
+  - destruct yt; [simpl; ring | simpl in Hl; lia].
+  - destruct yt as [|y yt]; [simpl in Hl; lia|]. destruct fr as [|f fr]; [simpl; ring|].
+    unfold vsub in *. cbn [map2 dotl ssq]. rewrite IH by (simpl in Hl; lia). ring.
+Qed.
+
+Lemma dot_bottom (mu D0 : R) : 0 < mu -> forall Dt xt yt fr : list R, rel_ok mu fr D0 Dt -> length Dt = length xt ->
+  length yt = length xt -> (length xt <= length fr)%nat ->
+  dotl (map2 (fun d x => - d * x) Dt xt) (vsub yt xt) =
+  - (D0 / (mu * mu)) * (dotl (map2 Rmult xt fr) (map2 Rmult yt fr) - ssq (map2 Rmult xt fr)).
+Proof.
+  intros Hmu. induction Dt as [|d Dt IH]; intros xt yt fr Hr Hl Hy Hf.
+  - destruct xt; [|simpl in Hl; lia]. destruct yt; [simpl; ring | simpl in Hy; lia].
+  - destruct xt as [|x xt]; [simpl in Hl; lia|]. destruct yt as [|y yt]; [simpl in Hy; lia|].
+    destruct fr as [|f fr]; [simpl in Hf; lia|].
+    apply rel_ok_tail in Hr. destruct Hr as [Hd Hr].
+    assert (Ed : d = D0 * (f * f) / (mu * mu)) by (apply (Rmult_eq_reg_r (mu * mu)); [rewrite Hd; field; lra | nra]).
+    unfold vsub in *. cbn [map2 dotl ssq]. rewrite (IH xt yt fr) by (simpl in *; auto; lia). rewrite Ed. field. lra.
+Qed.
+
+Lemma dotl_zeros (xs v : list R) : dotl (map (fun _ => 0) xs) v = 0.
+Proof. revert v. induction xs as [|x xs IH]; intros v; destruct v; simpl; try reflexivity. rewrite IH. ring. Qed.
+
+(* tangent-plane inequality of the elliptic block *)
+Lemma ell_tangent flg mu fr D0 Dt (x0 : R) (xt : list R) (y0 : R) (yt : list R) : 0 < mu -> 0 <= D0 ->
+  length Dt = length xt -> length yt = length xt -> (length xt <= length fr)%nat -> rel_ok mu fr D0 Dt ->
+  e_cost (block_ell flg 0 mu fr (D0 :: Dt) (x0 :: xt)) -
+  dotl (e_force (block_ell flg 0 mu fr (D0 :: Dt) (x0 :: xt))) (vsub (y0 :: yt) (x0 :: xt)) <=
+  e_cost (block_ell flg 0 mu fr (D0 :: Dt) (y0 :: yt)).
+Proof.
+  intros Hmu HD Hl Hy Hf Hr.
+  assert (Hm2 : 0 < mu * mu) by nra.
+  set (q := D0 / (2 * (mu * mu))). assert (Hq : 0 <= q) by (unfold q; apply Rmult_le_pos; [lra | left; apply Rinv_0_lt_compat; lra]).
+  (* cost as q * G2 *)
+  assert (Hcost : forall z0 zt, length zt = length xt ->
+            e_cost (block_ell flg 0 mu fr (D0 :: Dt) (z0 :: zt)) = q * G2 mu (z0 * mu) (Tnorm zt fr)).
+  { intros z0 zt Hz. rewrite block_ell_cost by assumption. rewrite Rplus_0_l. unfold G2, Zsel.
+    destruct (Rle_dec (mu * Tnorm zt fr) (z0 * mu)); [ring|].
+    destruct (Rle_dec (mu * (z0 * mu) + Tnorm zt fr) 0).
+    - cbn [quad]. rewrite (quad_rel mu D0 Hmu Dt zt fr) by (auto; lia). rewrite <- (Tnorm_sqr zt fr). unfold q. field. lra.
+    - unfold Dmid, q. field. split; nra. }
+  rewrite (Hcost x0 xt eq_refl), (Hcost y0 yt Hy).
+  set (N := x0 * mu). set (T := Tnorm xt fr). set (N' := y0 * mu). set (T' := Tnorm yt fr).
+  assert (HT : 0 <= T) by apply sqrt_pos. assert (HT' : 0 <= T') by apply sqrt_pos.
+  pose proof (G2_tangent mu N T N' T' Hmu HT HT') as Htan.
+  pose proof (G2T_nonneg mu N T Hmu HT) as HGT.
+  set (U := map2 Rmult xt fr). set (V := map2 Rmult yt fr).
+  assert (HUV : dotl U V <= T * T') by (unfold T, T', Tnorm; apply dotl_le_norms).
+  assert (HTT : T * T = ssq U) by apply Tnorm_sqr.
+  (* the dot product with the force, zone by zone *)
+  assert (Hdot : - dotl (e_force (block_ell flg 0 mu fr (D0 :: Dt) (x0 :: xt))) (vsub (y0 :: yt) (x0 :: xt)) <=
+                 q * (G2N mu N T * (N' - N) + G2T mu N T * (T' - T))).
+  { unfold block_ell, e_force. cbv zeta. rewrite mju_norm_R. num_R. fold (Tnorm xt fr). fold T. fold N.
+    rewrite top_bool, bot_bool by assumption. unfold G2N, G2T, Zsel.
+    destruct (Rle_dec (mu * T) N) as [P1|P1]; [|destruct (Rle_dec (mu * N + T) 0) as [P2|P2]]; cbn [fst snd].
+    - rewrite dotl_zeros. lra.
+    - unfold vsub. cbn [map2 dotl]. fold (vsub yt xt).
+      rewrite (dot_bottom mu D0 Hmu Dt xt yt fr Hr Hl Hy Hf). fold U V. rewrite <- HTT.
+      replace (- (- D0 * x0 * (y0 - x0) + - (D0 / (mu * mu)) * (dotl U V - T * T)))
+        with (q * (2 * N * (N' - N) + 2 * (dotl U V - T * T))) by (unfold q, N, N'; field; lra).
+      apply Rmult_le_compat_l; [exact Hq|]. lra.
+    - assert (HTp : 0 < T).
+      { destruct (Req_dec T 0) as [E|E]; [|lra]. exfalso. rewrite E in *. destruct (Rle_dec 0 N); nra. }
+      unfold vsub. cbn [map2 dotl]. fold (vsub yt xt).
+      set (Dm := D0 / (mu * mu * (1 + mu * mu))). set (f0 := - Dm * (N - mu * T) * mu).
+      rewrite (dot_middle (- f0 / T) xt yt fr Hy). fold U V. rewrite <- HTT.
+      assert (HDm : 0 <= Dm) by (unfold Dm; apply Rmult_le_pos; [lra | left; apply Rinv_0_lt_compat; nra]).
+      assert (Hf0 : 0 <= f0) by (unfold f0; assert (0 <= Dm * (mu * T - N)) by (apply Rmult_le_pos; lra); nra).
+      assert (E1 : q * (2 * (N - mu * T) / (1 + mu * mu) * (N' - N)) = - (f0 * (y0 - x0))).
+      { unfold q, f0, Dm, N, N'. field. split; nra. }
+      assert (E2 : q * (- 2 * mu * (N - mu * T) / (1 + mu * mu) * (T' - T)) = f0 * (T' - T)).
+      { unfold q, f0, Dm. field. split; nra. }
+      rewrite Rmult_plus_distr_l, E1, E2.
+      assert (H3 : f0 / T * (dotl U V - T * T) <= f0 / T * (T * T' - T * T)).
+      { apply Rmult_le_compat_l; [apply Rmult_le_pos; [exact Hf0 | left; apply Rinv_0_lt_compat; exact HTp] | lra]. }
+      replace (f0 / T * (T * T' - T * T)) with (f0 * (T' - T)) in H3 by (field; lra).
+      replace (- (f0 * (y0 - x0) + - f0 / T * (dotl U V - T * T))) with (- (f0 * (y0 - x0)) + f0 / T * (dotl U V - T * T)) by (field; lra).
+      lra. }
+  assert (q * (G2 mu N T + G2N mu N T * (N' - N) + G2T mu N T * (T' - T)) <= q * G2 mu N' T') by (apply Rmult_le_compat_l; assumption).
+  lra.
+Qed.
+
+(* tangent-line inequalities of the scalar rows *)
+Lemma row_eq_tangent D x y : 0 <= D ->
+  r_cost (row_eq 0 D x) - r_force (row_eq 0 D x) * (y - x) <= r_cost (row_eq 0 D y).
+Proof.
+  intros HD. rewrite !row_eq_cost, row_eq_force.
+  assert (0 <= D * ((y - x) * (y - x))) by (apply Rmult_le_pos; [lra | apply Rle_0_sqr]). nra.
+Qed.
+
+Lemma row_uni_tangent D x y : 0 <= D ->
+  r_cost (row_uni 0 D x) - r_force (row_uni 0 D x) * (y - x) <= r_cost (row_uni 0 D y).
+Proof.
+  intros HD. rewrite !row_uni_cost, row_uni_force.
+  assert (0 <= D * (y * y)) by (apply Rmult_le_pos; [lra | apply Rle_0_sqr]).
+  assert (0 <= D * (x * x)) by (apply Rmult_le_pos; [lra | apply Rle_0_sqr]).
+  assert (0 <= D * ((y - x) * (y - x))) by (apply Rmult_le_pos; [lra | apply Rle_0_sqr]).
+  destruct (Rle_dec 0 x), (Rle_dec 0 y); nra.
+Qed.
+
+Lemma row_fric_tangent D Rr fl x y : D * Rr = 1 -> 0 < Rr -> 0 <= fl ->
+  r_cost (row_fric 0 D Rr fl x) - r_force (row_fric 0 D Rr fl x) * (y - x) <= r_cost (row_fric 0 D Rr fl y).
+Proof.
+  intros E HR Hf. rewrite !row_fric_cost, row_fric_force by assumption.
+  assert (HD : 0 < D) by (destruct (Rlt_or_le 0 D); [assumption | nra]).
+  assert (Ha : 0 <= Rr * fl) by (apply Rmult_le_pos; lra).
+  pose proof (hub_tangent (Rr * fl) x y Ha). nra.
+Qed.
+
+(* list vectors *)
+Lemma dotl_app (a b c d : list R) : length a = length c -> dotl (a ++ b) (c ++ d) = dotl a c + dotl b d.
+Proof.
+  revert c. induction a as [|x a IH]; intros c Hl; destruct c as [|y c]; simpl in Hl; try lia; [simpl; ring|].
+  cbn [app dotl]. rewrite IH by lia. ring.
+Qed.
+
+Lemma vsub_firstn n (y x : list R) : firstn n (vsub y x) = vsub (firstn n y) (firstn n x).
+Proof.
+  unfold vsub. revert y x. induction n; intros y x; [reflexivity|].
+  destruct y, x; try reflexivity. cbn [map2 firstn]. f_equal. apply IHn.
+Qed.
+Lemma vsub_skipn n (y x : list R) : length y = length x -> skipn n (vsub y x) = vsub (skipn n y) (skipn n x).
+Proof.
+  unfold vsub. revert y x. induction n; intros y x Hl; [reflexivity|].
+  destruct y, x; simpl in Hl; try lia; try reflexivity. cbn [map2 skipn]. apply IHn. lia.
+Qed.
+Lemma vsub_length (y x : list R) : length (vsub y x) = Nat.min (length y) (length x).
+Proof. unfold vsub. apply map2_length. Qed.
+
+(* tangent-plane inequality of the whole update: cost(y) >= cost(x) - force(x) . (y - x) *)
+Lemma cu_loop_tangent : forall fuel flg ne nf con i s rows (x y : list R),
+  cu_wf fuel ne nf con i rows -> D_nonneg rows -> length x = length rows -> length y = length rows ->
+  cu_cost (cu_loop fuel flg ne nf con i s rows x) -
+  dotl (cu_force (cu_loop fuel flg ne nf con i s rows x)) (vsub y x) <=
+  cu_cost (cu_loop fuel flg ne nf con i s rows y).
+Proof.
+  induction fuel as [|fuel IH]; intros flg ne nf con i s rows x y Hwf HD Hx Hy;
+    destruct rows as [|[[[[D Rr] fl] tp] id] rows]; destruct x as [|x0 x]; destruct y as [|y0 y];
+    try (simpl in Hx, Hy; lia); try (simpl; lra).
+  cbn [cu_wf] in Hwf. simpl in Hx, Hy.
+  inversion HD as [|? ? HD0 HD']; subst. unfold rD in HD0.
+  assert (Scalar : forall (K : R -> R -> R * R * Z),
+            (forall s0 t, K s0 t = (s0 + r_cost (K 0 t), r_force (K 0 t), snd (K 0 t))) ->
+            (forall a b, r_cost (K 0 a) - r_force (K 0 a) * (b - a) <= r_cost (K 0 b)) ->
+            cu_wf fuel ne nf con (i + 1)%Z rows ->
+            (forall J : list R, cu_loop (S fuel) flg ne nf con i s (@cons (@rowdesc R) (D, Rr, fl, tp, id) rows) J =
+               match J with
+               | [] => None
+               | z :: J' => let '(s', f, st) := K s z in res_cons f st (cu_loop fuel flg ne nf con (i + 1)%Z s' rows J')
+               end) ->
+            cu_cost (cu_loop (S fuel) flg ne nf con i s (@cons (@rowdesc R) (D, Rr, fl, tp, id) rows) (x0 :: x)) -
+            dotl (cu_force (cu_loop (S fuel) flg ne nf con i s (@cons (@rowdesc R) (D, Rr, fl, tp, id) rows) (x0 :: x))) (vsub (y0 :: y) (x0 :: x)) <=
+            cu_cost (cu_loop (S fuel) flg ne nf con i s (@cons (@rowdesc R) (D, Rr, fl, tp, id) rows) (y0 :: y))).
+  { intros K Ktuple Ktan Hwf' Hstep.
+    rewrite !Hstep. rewrite (Ktuple s x0), (Ktuple s y0). cbv beta iota.
+    destruct (cu_loop_ok fuel flg ne nf con (i + 1)%Z 0 rows x Hwf') as [Ax _]; [lia|].
+    destruct (cu_loop_ok fuel flg ne nf con (i + 1)%Z 0 rows y Hwf') as [Ay _]; [lia|].
+    rewrite !cu_cost_res_cons.
+    rewrite (cu_loop_acc fuel flg ne nf con (i + 1)%Z (s + r_cost (K 0 x0))), (cu_loop_acc fuel flg ne nf con (i + 1)%Z (s + r_cost (K 0 y0))).
+    rewrite cu_force_res_cons by (apply shift_none_not; exact Ax). rewrite cu_force_shift.
+    rewrite !cu_cost_shift by assumption.
+    unfold vsub. cbn [map2 dotl]. fold (vsub y x).
+    pose proof (IH flg ne nf con (i + 1)%Z 0 rows x y Hwf' HD' ltac:(lia) ltac:(lia)) as IH'.
+    pose proof (Ktan x0 y0). lra. }
+  destruct (i <? ne)%Z eqn:E1.
+  { apply (Scalar (fun s0 t => row_eq s0 D t)); [intros; apply row_eq_tuple | intros; apply row_eq_tangent; exact HD0 | exact Hwf |].
+    intros J. destruct J; cbn [cu_loop]; [reflexivity|]. rewrite E1. reflexivity. }
+  destruct (i <? ne + nf)%Z eqn:E2.
+  { destruct Hwf as [[Hdr [HR Hfl]] Hwf].
+    apply (Scalar (fun s0 t => row_fric s0 D Rr fl t)); [intros; apply row_fric_tuple | intros; apply row_fric_tangent; assumption | exact Hwf |].
+    intros J. destruct J; cbn [cu_loop]; [reflexivity|]. rewrite E1, E2. reflexivity. }
+  destruct (negb (tp =? CT_ELLIPTIC)%Z) eqn:E3.
+  { apply (Scalar (fun s0 t => row_uni s0 D t)); [intros; apply row_uni_tuple | intros; apply row_uni_tangent; exact HD0 | exact Hwf |].
+    intros J. destruct J; cbn [cu_loop]; [reflexivity|]. rewrite E1, E2, E3. reflexivity. }
+  clear Scalar.
+  destruct Hwf as [Hid Hwf].
+  destruct (nth_error con (Z.to_nat id)) as [[[dim mu] fr]|] eqn:E5; [|contradiction].
+  cbv zeta in Hwf. destruct Hwf as [Hdim [Hn [Hmu [Hfr [Hrel Hwf]]]]].
+  remember (Z.to_nat dim) as n eqn:En.
+  destruct n as [|m]; [exfalso; clear - En Hdim; lia|].
+  simpl length in Hn. replace (S m - 1)%nat with m in Hfr, Hrel by (clear; lia).
+  set (rows0 := @cons (@rowdesc R) (D, Rr, fl, tp, id) rows) in *.
+  set (Dt := map rD (firstn m rows)) in *.
+  set (Rst := skipn (S m) rows0) in *.
+  assert (HlD : length Dt = m) by (unfold Dt; rewrite map_length, firstn_length; clear - Hn; lia).
+  assert (Step : forall J : list R, length J = S (length rows) ->
+            cu_loop (S fuel) flg ne nf con i s rows0 J =
+            res_app (e_force (block_ell flg 0 mu fr (D :: Dt) (firstn (S m) J)))
+                    (repeat (e_state (block_ell flg 0 mu fr (D :: Dt) (firstn (S m) J))) (S m))
+                    (snd (block_ell flg 0 mu fr (D :: Dt) (firstn (S m) J)))
+                    (shift (s + e_cost (block_ell flg 0 mu fr (D :: Dt) (firstn (S m) J)))
+                           (cu_loop fuel flg ne nf con (i + dim)%Z 0 Rst (skipn (S m) J)))).
+  { intros J HJ. unfold rows0. rewrite (cu_loop_ell_step fuel flg ne nf con i s D Rr fl tp id rows dim mu fr m J) by (auto; lia).
+    reflexivity. }
+  assert (HRst : forall J : list R, length J = S (length rows) -> length (skipn (S m) J) = length Rst).
+  { intros J HJ. unfold Rst, rows0. rewrite !skipn_length, HJ. reflexivity. }
+  destruct (cu_loop_ok fuel flg ne nf con (i + dim)%Z 0 Rst (skipn (S m) (x0 :: x)) Hwf (HRst (x0 :: x) Hx)) as [Ax _].
+  destruct (cu_loop_ok fuel flg ne nf con (i + dim)%Z 0 Rst (skipn (S m) (y0 :: y)) Hwf (HRst (y0 :: y) Hy)) as [Ay _].
+  rewrite (Step (x0 :: x) Hx), (Step (y0 :: y) Hy).
+  rewrite !cu_cost_res_app, !cu_cost_shift by assumption.
+  rewrite cu_force_res_app by (apply shift_none_not; exact Ax). rewrite cu_force_shift.
+  assert (Hfx : length (firstn m x) = m) by (rewrite firstn_length; clear - Hn Hx; lia).
+  assert (Hfy : length (firstn m y) = m) by (rewrite firstn_length; clear - Hn Hy; lia).
+  assert (HlenB : length (e_force (block_ell flg 0 mu fr (D :: Dt) (firstn (S m) (x0 :: x)))) = S m).
+  { rewrite e_force_length; cbn [firstn length]; rewrite ?HlD, ?Hfx; try reflexivity. clear - Hfr. lia. }
+  rewrite <- (firstn_skipn (S m) (vsub (y0 :: y) (x0 :: x))).
+  rewrite dotl_app by (rewrite HlenB, firstn_length, vsub_length; simpl length; clear - Hn Hx Hy; lia).
+  rewrite vsub_firstn, vsub_skipn by (simpl; lia).
+  pose proof (IH flg ne nf con (i + dim)%Z 0 Rst (skipn (S m) (x0 :: x)) (skipn (S m) (y0 :: y)) Hwf
+                 (Forall_skipn _ _ _ HD) (HRst (x0 :: x) Hx) (HRst (y0 :: y) Hy)) as IH'.
+  cbn [firstn] in *.
+  pose proof (ell_tangent flg mu fr D Dt x0 (firstn m x) y0 (firstn m y) Hmu HD0) as Hb.
+  rewrite HlD, Hfx, Hfy in Hb. specialize (Hb eq_refl eq_refl Hfr Hrel).
+  lra.
+Qed.
+
+Lemma lincomb_length lam (a b : list R) : length (lincomb lam a b) = Nat.min (length a) (length b).
+Proof. unfold lincomb. apply map2_length. Qed.
+
+Lemma dotl_lincomb_zero (lam : R) : forall F a b : list R,
+  lam * dotl F (vsub a (lincomb lam a b)) + (1 - lam) * dotl F (vsub b (lincomb lam a b)) = 0.
+Proof.
+  unfold vsub, lincomb. induction F as [|f F IH]; intros a b; [simpl; lra|].
+  destruct a as [|x a], b as [|y b]; try (simpl; lra).
+  cbn [map2 dotl].
+  replace (lam * (f * (x - (lam * x + (1 - lam) * y)) + dotl F (map2 Rminus a (map2 (fun x1 y1 : R => lam * x1 + (1 - lam) * y1) a b))) +
+           (1 - lam) * (f * (y - (lam * x + (1 - lam) * y)) + dotl F (map2 Rminus b (map2 (fun x1 y1 : R => lam * x1 + (1 - lam) * y1) a b))))
+    with (lam * dotl F (map2 Rminus a (map2 (fun x1 y1 : R => lam * x1 + (1 - lam) * y1) a b)) +
+          (1 - lam) * dotl F (map2 Rminus b (map2 (fun x1 y1 : R => lam * x1 + (1 - lam) * y1) a b))) by ring.
+  apply IH.
+Qed.
+
+(* the total constraint cost is a convex function of the residual vector, and lies above its tangent planes *)
+Theorem cu_tangent : forall flgH ne nf (con : list (@contact R)) (rows : list (@rowdesc R)) (x y : list R),
+  cu_wf (length rows) ne nf con 0 rows -> D_nonneg rows -> length x = length rows -> length y = length rows ->
+  cu_cost (constraint_update flgH ne nf con rows x) -
+  dotl (cu_force (constraint_update flgH ne nf con rows x)) (vsub y x) <=
+  cu_cost (constraint_update flgH ne nf con rows y).
+Proof. intros. unfold constraint_update. apply cu_loop_tangent; assumption. Qed.
+
+Theorem cu_convex : forall flgH ne nf (con : list (@contact R)) (rows : list (@rowdesc R)) (a b : list R) (lam : R),
+  cu_wf (length rows) ne nf con 0 rows -> D_nonneg rows -> length a = length rows -> length b = length rows ->
+  0 <= lam <= 1 ->
+  cu_cost (constraint_update flgH ne nf con rows (lincomb lam a b)) <=
+  lam * cu_cost (constraint_update flgH ne nf con rows a) + (1 - lam) * cu_cost (constraint_update flgH ne nf con rows b).
+Proof.
+  intros flgH ne nf con rows a b lam Hwf HD Ha Hb [H0 H1].
+  set (z := lincomb lam a b).
+  assert (Hz : length z = length rows) by (unfold z; rewrite lincomb_length, Ha, Hb; apply Nat.min_id).
+  pose proof (cu_tangent flgH ne nf con rows z a Hwf HD Hz Ha) as Ta.
+  pose proof (cu_tangent flgH ne nf con rows z b Hwf HD Hz Hb) as Tb.
+  pose proof (dotl_lincomb_zero lam (cu_force (constraint_update flgH ne nf con rows z)) a b) as Z. fold z in Z.
+  assert (A : lam * (cu_cost (constraint_update flgH ne nf con rows z) -
+                     dotl (cu_force (constraint_update flgH ne nf con rows z)) (vsub a z)) <=
+              lam * cu_cost (constraint_update flgH ne nf con rows a)) by (apply Rmult_le_compat_l; lra).
+  assert (B : (1 - lam) * (cu_cost (constraint_update flgH ne nf con rows z) -
+                     dotl (cu_force (constraint_update flgH ne nf con rows z)) (vsub b z)) <=
+              (1 - lam) * cu_cost (constraint_update flgH ne nf con rows b)) by (apply Rmult_le_compat_l; lra).
+  lra.
+Qed.
